@@ -1718,6 +1718,10 @@ func (ls *LState) GetStack(level int) (*Debug, bool) {
 }
 
 func (ls *LState) GetLocal(dbg *Debug, no int) (string, LValue) {
+	if dbg.tail {
+		// a level lost to a tail call has no variables (dbg.frame is the bottom frame)
+		return "", LNil
+	}
 	frame := dbg.frame
 	if name := ls.findLocal(frame, no); len(name) > 0 {
 		return name, ls.reg.Get(frame.LocalBase + no - 1)
@@ -1726,6 +1730,9 @@ func (ls *LState) GetLocal(dbg *Debug, no int) (string, LValue) {
 }
 
 func (ls *LState) SetLocal(dbg *Debug, no int, lv LValue) string {
+	if dbg.tail {
+		return ""
+	}
 	frame := dbg.frame
 	if name := ls.findLocal(frame, no); len(name) > 0 {
 		ls.reg.Set(frame.LocalBase+no-1, lv)
